@@ -31,6 +31,9 @@ type histWorld struct{}
 func (histWorld) Name() string { return "W-HIST" }
 
 var histClaimOps = []string{"cid", "lc", "impl", "seed", "cert", "sw", "nonce", "inst", "vsi"}
+
+// swedit: a software component of the claims-set is updated in place through
+// its own setter (the list is reached through the getter)
 var histCompOps = []string{"mt", "mv", "ver", "sid", "md"}
 var histLens = []int{0, 1, 7, 8, 9, 16, 31, 32, 33, 34, 47, 48, 49, 63, 64, 65, 80}
 
@@ -148,6 +151,9 @@ func genHistOp(r *Rng, obj string) Op {
 		}
 		return genSwListOp(r, "replace")
 	}
+	if r.Chance(1, 12) {
+		return Op{K: "swedit", A: r.Intn(4), B: r.Intn(3), S: textPool[r.Intn(len(textPool))], X: r.Bytes(hashLens[r.Intn(3)])}
+	}
 	k := histClaimOps[r.Intn(len(histClaimOps))]
 	op := Op{K: k}
 	switch k {
@@ -168,7 +174,7 @@ func genHistOp(r *Rng, obj string) Op {
 	case "cert":
 		op.S = genCertRef(r)
 	case "vsi":
-		op.S = []string{"", "x", "https://veraison.example/v1/challenge-response", "é://v", "a b", "\x00"}[r.Intn(6)]
+		op.S = []string{"", "x", "https://veraison.example/v1/challenge-response", "é://v", "a b", "\x00", " ", "\t", " padded ", "trailing\n"}[r.Intn(10)]
 	case "sw":
 		return genSwListOp(r, "sw")
 	}
@@ -635,6 +641,7 @@ func execHistClaims(res *Result, t *Trace, obj string, start *ClaimsDesc) {
 	lastOK := map[string]Op{}
 	accepted, rejected := 0, 0
 	var held []byte
+	var swEdits []Op // in-place component edits since the last successful SetSoftwareComponents
 	// "every mandatory claim set successfully => validates" speaks about a claims-set whose
 	// claims all came through the setters; a decoded starting state that is itself invalid
 	// (say, a malformed optional claim no later call touches) is outside it.
@@ -678,11 +685,22 @@ func execHistClaims(res *Result, t *Trace, obj string, start *ClaimsDesc) {
 					}
 				}
 			}
+			for _, e := range swEdits {
+				applySwEdit(fresh, e)
+			}
 			res.Evals++
 			if a, b := fullObs(c), fullObs(fresh); a != b {
 				res.violate("C11", "encoding-depends-on-history", "", i, "a claims-set rebuilt from the last successful call per claim (order %v, x%d) differs from the one that went through the history:\n history: %s\n rebuilt: %s", order, reps, a, b)
 			}
 			res.Probes["rebuild_compared"]++
+			continue
+		}
+		if op.K == "swedit" {
+			applySwEdit(c, op)
+			swEdits = append(swEdits, op)
+			res.Evals++
+			res.Probes["component_edited_in_place"]++
+			checkEncodingReflectsGetters(res, i, c, obj)
 			continue
 		}
 		if isByteSetter(op.K) {
@@ -753,6 +771,10 @@ func execHistClaims(res *Result, t *Trace, obj string, start *ClaimsDesc) {
 		}
 		res.Probes["setter_ok"]++
 		lastOK[op.K] = op
+		if op.K == "sw" {
+			swEdits = nil
+		}
+		checkEncodingReflectsGetters(res, i, c, obj)
 		ci := claimIndex(op.K)
 		if isClear {
 			// checked above
@@ -1012,4 +1034,51 @@ func (histWorld) Simplify(o Op) []Op {
 		}
 	}
 	return out
+}
+
+// applySwEdit updates one component of c in place through the component's own setter.
+func applySwEdit(c psatoken.IClaims, op Op) {
+	defer func() { _ = recover() }()
+	scs, err := c.GetSoftwareComponents()
+	if err != nil || len(scs) == 0 {
+		return
+	}
+	sc := scs[abs(op.A)%len(scs)]
+	switch abs(op.B) % 3 {
+	case 0:
+		_ = sc.SetVersion(op.S)
+	case 1:
+		_ = sc.SetMeasurementDesc(op.S)
+	default:
+		_ = sc.SetMeasurementValue(append([]byte{}, op.X...))
+	}
+}
+
+// checkEncodingReflectsGetters: "the encoding depends only on the final
+// values" - what the CBOR and JSON encodings carry must be what the getters
+// show right now: the encoding, decoded into a fresh object of the same type,
+// must give the same getter results (when it encodes and decodes at all).
+func checkEncodingReflectsGetters(res *Result, i int, c psatoken.IClaims, obj string) {
+	defer func() { _ = recover() }()
+	want := getterObs(c)
+	if b, err := psatoken.EncodeClaimsToCBOR(c); err == nil {
+		if f, ferr := newHistClaims(obj, nil); ferr == nil {
+			if u, ok := f.(interface{ UnmarshalCBOR([]byte) error }); ok && u.UnmarshalCBOR(b) == nil {
+				res.Evals++
+				if got := getterObs(f); got != want {
+					res.violate("C11", "encoding-does-not-reflect-current-values", "", i, "the CBOR encoding of the claims-set, decoded into a fresh %s object, does not show what the getters show now:\n getters:  %s\n encoding: %s", obj, want, got)
+				}
+			}
+		}
+	}
+	if b, err := psatoken.EncodeClaimsToJSON(c); err == nil {
+		if f, ferr := newHistClaims(obj, nil); ferr == nil {
+			if u, ok := f.(interface{ UnmarshalJSON([]byte) error }); ok && u.UnmarshalJSON(b) == nil {
+				res.Evals++
+				if got := getterObs(f); got != want {
+					res.violate("C11", "encoding-does-not-reflect-current-values", "", i, "the JSON encoding of the claims-set, decoded into a fresh %s object, does not show what the getters show now:\n getters:  %s\n encoding: %s", obj, want, got)
+				}
+			}
+		}
+	}
 }
